@@ -1,3 +1,3 @@
 pub mod api;
 pub mod common;
-pub use api::{Int, SInt, UInt};
+pub use api::{Int, SInt, UInt, Val};
